@@ -30,7 +30,34 @@ def http_tables(sc):
 HTTP_RUN = {"harness": "hhttp", "driver": "httpdrv", "fields": ["cache", "err", "st", "msgs"], "corpus": "http",
             "quick": {"n": 1500, "shards": 16}, "thorough": {"n": 40000, "shards": 32}}
 
+C07_RUN = {"harness": "hhttp7", "driver": "httpdrv", "fields": ["render", "err", "cache", "st", "nb", "offs", "ref"], "corpus": "http7",
+           "quick": {"n": 700, "shards": 16}, "thorough": {"n": 20000, "shards": 32}}
+
 PROPS = {
+    "C07": {
+        "manifest": {
+            "text": "Lean theorems on the parser model: every production of the HTTP/1.x message grammar (request line, status line, "
+                    "header line, end of headers, Content-Length body, chunk, last chunk, trailer line) is parsed to exactly the events of "
+                    "the abstract message and the parser returns to its idle state at offset |render m|; the processor glue "
+                    "(ServerProcessor/ClientProcessor as functions of the event list) delivers reqSpec m / respSpec m; decision tables "
+                    "framing = RFC 7230 3.3.3 and Close = RFC 7230 6.3 on the agreed domain. Three-way differential on generated "
+                    "messages: real nbio (real processors, what the handler sees), the Lean model and spec, and net/http",
+            "note": "agreement of the Lean spec (reqSpec/respSpec normal form) with net/http is sampled, not proved (the reference is not "
+                    "modelled); neighbours of the agreed domain are classified and counted, not judged",
+            "technique": "Lean 4 proof (compositional, per grammar production, on the byte-at-a-time spec; lifted to the Go-shaped loop in "
+                         "any segmentation by the C06 refinement) + three-way differential correspondence"},
+        "lean": ["NbioVerif.Properties.C07", "NbioVerif.Lemmas.HttpTables"], "drivers": ["httpdrv"], "harness": ["hhttp", "hhttp7"],
+        "facts": [http_tables],
+        "runs": [C07_RUN],
+        "oracles": ["c07-"],
+        "rule": "case = 1..3 pipelined messages drawn from the Msg grammar (or one neighbour of the agreed domain) + a segmentation; distinct "
+                "by hash of (role, method/version, header-count class, framing headers and their spellings, framing kind, chunk count and "
+                "length classes, extensions, trailer count); non-trivial iff a body or trailers are present",
+        "assumptions": ["url.ParseRequestURI / http.ParseHTTPVersion verdicts are inputs of the model (recorded from the real processors); "
+                        "the model's own parseHTTPVersion is cross-checked against the recorded verdicts",
+                        "the reference parser is not modelled: agreement of reqSpec/respSpec with net/http is sampled on every case",
+                        "header names ASCII (strings.ToLower / CanonicalHeaderKey are modelled bytewise)"],
+    },
     "C06": {
         "manifest": {
             "text": "Lean theorem c06_http (any segmentation = one piece, for every byte string, state table and processor verdict) on a "
